@@ -162,6 +162,28 @@ def ok_returns(fn):
     return out
 
 
+def maybe_ok_returns(fn):
+    """Every definition of the return place that can carry Ok: the Ok aggregates of ok_returns plus results handed on
+    from a callee (`_0 = callee(..)` as the tail expression) or from a local; Err aggregates and the from_residual exits
+    of `?` cannot.  Returns (block, index or None) pairs."""
+    out = [(b, i) for (b, i, _v) in ok_returns(fn)]
+    for b, i, s in fn.stmts():
+        if s["k"] == "Assign" and s["p"]["l"] == 0 and not s["p"]["proj"]:
+            v = fn.term_of_rvalue(s["rv"], b)
+            if v[0] == "agg" and v[2] and v[2].endswith(("Result::Ok", "Result::Err")):
+                continue
+            if v[0] == "call" and v[1] and v[1].endswith("FromResidual::from_residual"):
+                continue
+            out.append((b, i))
+    for b, t in fn.calls():
+        d = t.get("dest")
+        if d and d["l"] == 0 and not d["proj"]:
+            c = strip_generics(t.get("callee") or "")
+            if not c.endswith("FromResidual::from_residual"):
+                out.append((b, None))
+    return out
+
+
 def public_vm_fns(F):
     return [f for f in F.fns if f.kind == "AssocFn" and f.npath.startswith(VM + "::") and f.raw.get("pub")]
 
